@@ -16,7 +16,8 @@ not allow the step in its state (the harness only emits steps it saw the real co
   restartlate <n> | replaylate <n>           restart with the replayed entries applied later
   metadown <n> | metaup <n> | elect | setmaster <m>
   flushprobe                                 where the flush gives the raft snapshot signal (regenerated fact)
-  digest                                     the whole state, canonical
+  digest                                     the whole state, canonical (files / flushing table / memtable apart)
+  digestm                                    the same with only the merged view of each node's rows (real shards)
   read <n> <k>                               what node n answers for key k
   spec <k>                                   the latest committed write of k
 -/
@@ -64,15 +65,17 @@ def layerText (clog : List Ent) (l : List Nat) : String :=
 
 def natList (l : List Nat) : String := if l.isEmpty then "-" else ",".intercalate (l.map toString)
 
-def nodeText (clog : List Ent) (bounds : List Nat) (i : Nat) (x : Node) : String :=
+def nodeText (merged : Bool) (clog : List Ent) (bounds : List Nat) (i : Nat) (x : Node) : String :=
   if x.up then
-    s!"n{i} up f={if x.holes.isEmpty then toString x.first else "~"} l={x.last} fs={if x.holes.isEmpty then natList (x.segs bounds) else "~"} c={x.hsCommit} p={x.pub} a={x.applied} s={x.snapIdx} sc={x.sc} snp={if x.hasSnp then 1 else 0} w={x.pending.length} F={layerText clog x.files} I={layerText clog x.immIdx} M={layerText clog x.mem}"
+    let base := s!"n{i} up f={if x.holes.isEmpty then toString x.first else "~"} l={x.last} fs={if x.holes.isEmpty then natList (x.segs bounds) else "~"} c={x.hsCommit} p={x.pub} a={x.applied} s={x.snapIdx} sc={x.sc} snp={natList (x.hasSnp.mergeSort (fun a b => a ≤ b))} w={x.pending.length} D={layerText clog x.data}"
+    if merged then base
+    else base ++ s!" F={layerText clog x.files} I={layerText clog x.immIdx} M={layerText clog x.mem}"
   else s!"n{i} down"
 
-def digest (s : State) : String :=
+def digest (merged : Bool) (s : State) : String :=
   let acked := (s.acked.mergeSort (fun a b => a.1 ≤ b.1)).map (fun a => s!"{a.1}:{if a.2 then "ok" else "err"}")
   let hdr := s!"D clog={s.clog.length} infl={s.inflight.length} lead={match s.leader with | some l => toString l | none => "-"} master={s.master} peers={natList s.peers} alive={natList (s.alive.map (fun b => if b then 1 else 0))} acked={if acked.isEmpty then "-" else ",".intercalate acked}"
-  " | ".intercalate (hdr :: (s.nodes.mapIdx (fun i x => nodeText s.clog s.bounds i x)))
+  " | ".intercalate (hdr :: (s.nodes.mapIdx (fun i x => nodeText merged s.clog s.bounds i x)))
 
 def optText : Option Nat → String
   | some v => s!"v={v}"
@@ -134,7 +137,8 @@ def stepLine (s : Option State) (line : String) : Option State × String :=
   | ["elect"] => act s .elect
   | ["setmaster", m] => match m.toNat? with | some m => act s (.setMaster m) | none => bad
   | ["flushprobe"] => (s, s!"signal-after-commit={if OG.Gen.C05.snapSignalAfterCommit then 1 else 0}")
-  | ["digest"] => match s with | some st => (s, digest st) | none => bad
+  | ["digest"] => match s with | some st => (s, digest false st) | none => bad
+  | ["digestm"] => match s with | some st => (s, digest true st) | none => bad
   | ["read", n, k] =>
     match s, n.toNat?, k.toNat? with
     | some st, some n, some k =>
